@@ -30,6 +30,7 @@ elements 0|1 [h…]                                              → ok L2,P3/2,
 atm new 0|1 [h…] | atm setlayers [h…] | atm setscint 0|1 | atm seth j h | atm prop | atm calc
       → ok dirty=0|1 scint=0|1 el=L2,P3/2,…                    the `_dirty` flag and the element list of `MultiLayerAtmosphere`
 mla begin | mla addfin nx ny vx vy cn2 L0 seed | mla addinf nx ny dx dy vx vy cn2 L0 seed (→ ok n) | mla build |
+mla swap (atm.layers = new same-seed layers with the current settings) | mla rewrap (MultiLayerAtmosphere(atm.layers)) |
 mla evolve t | mla reset | mla resetold | mla setcn2 T | mla setl0 l | mla direct j evolve t|reset b|setcn2 c|setl0 l|setvel vx vy
       → ok|err value  t=T total=C ;; <fin answer | inf answer without pars/scr + scr=<hash of the symbolic screen>> ;; …
 atmphase λ [a…]                                                → ok Σ a_i/λ        one pixel of `MultiLayerAtmosphere.phase_for(λ)`
@@ -62,15 +63,18 @@ def showSym (pars : List (Par × List (Nat × Par))) (s : Sym) : String :=
 def showParLog (p : Par × List (Nat × Par)) : String :=
   s!"{showRat p.1.cn2}|{showRat p.1.L0}" ++ String.join (p.2.map fun e => s!"@{e.1}|{showRat e.2.cn2}|{showRat e.2.L0}")
 
+def showReq (r : InterpReq) : String :=
+  s!"req={showV2 r.offset} reqc={showRat r.matrix.1},{showRat r.matrix.2},{r.order},{if r.nearest then "nearest" else "other"}"
+
 def showInf (L : InfL) : String :=
   let pars := (L.screen.map fun s => (s.par, s.plog)).eraseDups
-  s!"ok c={showV2 L.center} t={showRat L.t} sub={showV2 L.sub} rng={L.rng.pos} orig={L.orig.pos} hist={L.hist} " ++
+  s!"ok c={showV2 L.center} t={showRat L.t} sub={showV2 L.sub} {showReq L.interpRequest} rng={L.rng.pos} orig={L.orig.pos} hist={L.hist} " ++
   s!"v={showV2 L.vel} par={showPar L.par} pars=" ++ ";".intercalate (pars.map showParLog) ++
   " scr=" ++ ",".intercalate (L.screen.map (showSym pars))
 
 /-- bookkeeping only (long histories of tiny steps: the screen is printed at the reads' operations only) -/
 def showInfQ (L : InfL) : String :=
-  s!"ok c={showV2 L.center} t={showRat L.t} sub={showV2 L.sub} rng={L.rng.pos} orig={L.orig.pos} hist={L.hist} " ++
+  s!"ok c={showV2 L.center} t={showRat L.t} sub={showV2 L.sub} {showReq L.interpRequest} rng={L.rng.pos} orig={L.orig.pos} hist={L.hist} " ++
   s!"v={showV2 L.vel} par={showPar L.par}"
 
 def b01 (b : Bool) : String := if b then "1" else "0"
@@ -219,6 +223,16 @@ def step (st : St) : List String → St × String
     | none => (st, "bad-op")
   | ["mla", "reset"] => mlaOp st .reset
   | ["mla", "resetold"] => mlaOp st .reset true
+  | ["mla", "swap"] =>
+    match st.mla with
+    | some A =>
+      let A' := A.setLayers (currentSpecs st.specs A.layers)
+      ({ st with mla := some A' }, showMLA A' A'.view true)
+    | none => (st, "bad-op")
+  | ["mla", "rewrap"] =>
+    match st.mla with
+    | some A => let A' := A.rewrap; ({ st with mla := some A' }, showMLA A' A'.view true)
+    | none => (st, "bad-op")
   | ["mla", "setcn2", c] =>
     match st.mla, parseRat? c with
     | some A, some c => if totalCn2 A.layers = 0 then (st, "err zero") else mlaOp st (.setCn2 c)
